@@ -55,7 +55,7 @@ def canon_fact(desc, truth):
     return '%s(%s,%s)' % (op, a, b), truth
 
 
-def structural_facts(B, bb):
+def structural_facts(B, bb, _depth=0):
     """facts fixed at block bb, described structurally: ('expr', True/False) for bool tests, ('expr', 'Some'|'None'|'Ok'|'Err') for Option / Result tests"""
     out = []
     for d in sorted(B.dom[bb]):
@@ -78,6 +78,21 @@ def structural_facts(B, bb):
                 truth = False
             if truth is None:
                 continue
+            # a flag that is only ever set to the constants true / false (`matches!(..)`, `let ok = match .. { A => true, _ => false }`): the branch is taken
+            # exactly when control came through the assignment of that constant, so the facts of that assignment are the facts of the branch
+            dl0 = op_local(t['discr'])
+            ds0 = B.whole_defs(dl0) if dl0 is not None else []
+            hops = 0
+            while len(ds0) == 1 and ds0[0][0] == 'assign' and ds0[0][4]['k'] == 'use' and ds0[0][4]['op']['k'] in ('copy', 'move') and not ds0[0][4]['op']['place']['p'] and hops < 4:
+                dl0 = ds0[0][4]['op']['place']['l']
+                ds0 = B.whole_defs(dl0)
+                hops += 1
+            if _depth < 3 and len(ds0) == 2 and all(x[0] == 'assign' and x[4]['k'] == 'use' and x[4]['op']['k'] == 'const' and 'bool' in x[4]['op'] for x in ds0) \
+                    and {x[4]['op']['bool'] for x in ds0} == {True, False}:
+                src_blk = [x[1] for x in ds0 if x[4]['op']['bool'] == truth][0]
+                if src_blk != bb:
+                    out.extend(structural_facts(B, src_blk, _depth + 1))
+                    continue
             while desc.startswith('Not(') and desc.endswith(')'):
                 desc = desc[4:-1]
                 truth = not truth
@@ -191,6 +206,12 @@ def disjunctive_facts(B, bb):
                 break
             atoms |= a
         if atoms and len(atoms) > 1:
+            byd = {}
+            for a in atoms:
+                dsc, _, val = a.rpartition('=')
+                byd.setdefault(dsc, set()).add(val)
+            if any({'Ok', 'Err'} <= v or {'Some', 'None'} <= v or {'True', 'False'} <= v for v in byd.values()):
+                continue          # `x is Ok or x is Err`: the join after an exhaustive test says nothing
             out.append(('|'.join(sorted(atoms)), 'either'))
     return out
 
